@@ -160,7 +160,7 @@ pub fn run(s: &mut Sink) {
         "assembler": "the C13 texts (all of the quick tier) and the C14 strings/token sequences of the quick tier",
         "verifier": "C06 byte strings: n = 1 with the full focus alphabet, n = 2 with a reduced focus alphabet, every opcode x every register byte",
         "disassembler": "the C15 programs of the quick tier (every supported opcode x 256 register nibbles x offsets x immediates)",
-        "interpreter_and_jit": "C01/C03 layer 1 (every descriptor, 31 operand inputs each), layer 2 sequences of length <= 2, layer 3 skeletons with 3 slots; the JIT runs from caller-supplied executable memory in the no_std build, on the inputs the reference machine proves defined",
+        "interpreter_and_jit": "C01/C03 layer 1 (every descriptor, 31 operand inputs each), layer 2 sequences of length <= 2, layer 3 skeletons with 3 slots, straight-line programs of 1..1400 long-encoding instructions (div/mod by register, lddw) around the code-page boundaries; the JIT runs from caller-supplied executable memory in the no_std build, on the inputs the reference machine proves defined",
     }));
     s.meta.insert("bound".into(), json!("reduced tiers of the corpora of C01, C03, C06, C13, C14, C15 as listed"));
     s.meta.insert("rule".into(), json!("every case is evaluated by both builds and the two canonical answers are compared (accept/reject, bytes, entries, values, errors-vs-values; error texts are not compared); non-trivial = cases with an Ok/accept answer or a value"));
@@ -283,6 +283,24 @@ pub fn run(s: &mut Sink) {
                         }
                     }
                 }
+            }
+        }
+        // straight-line programs dense in long encodings, around the page-size boundaries of the
+        // emitted code (the std and the no_std JIT constructors size their buffers separately)
+        let units: Vec<Vec<I>> = vec![vec![I::new(0x3f, 8, 7, 0, 0)], vec![I::new(0x9f, 8, 9, 0, 0)], vec![I::new(0x3c, 3, 4, 0, 0)], isa::lddw(3, 0x1122334455667788).to_vec(), vec![isa::mov64i(3, 1)]];
+        for (ui, unit) in units.iter().enumerate() {
+            g += 1;
+            if !s.take(g) {
+                continue;
+            }
+            for len in [1usize, 60, 90, 100, 110, 118, 119, 120, 121, 170, 400, 680, 700, 1400] {
+                let mut prog = vec![isa::mov64i(0, 0), isa::mov64i(7, 3), isa::mov64i(8, 1000), isa::mov64i(9, 7), isa::mov64i(3, 50), isa::mov64i(4, 3)];
+                for _ in 0..len {
+                    prog.extend(unit.iter());
+                }
+                prog.push(isa::mov64r(0, if ui < 2 { 8 } else { 3 }));
+                prog.push(isa::EXIT);
+                cases.push(run_case(VmKind::NoData, &prog, &[vec![]], false, 10_000));
             }
         }
         s.count("program_cases", cases.len() as u64);
